@@ -111,7 +111,9 @@ def run(pid, tier, seed):
             envs.append((td, tz_, lt))
     envs = list(dict.fromkeys(envs))
     out = os.path.join(work, "t.0.ndjson")
+    global NCLOSED
     nproc = 0
+    nclosed = 0
     with open(out, "w") as f:
         for td, tz_, lt in envs:
             e = {k: v for k, v in os.environ.items() if k not in ("TZDIR", "TZ", "LOCALTIME")}
@@ -122,6 +124,13 @@ def run(pid, tier, seed):
                 e["TZ"] = tz_
             if lt is not None:
                 e["LOCALTIME"] = lt
+            # the state of the process's descriptor table is part of the environment: every second process runs
+            # with descriptor 0 closed (the loader's first open() then returns 0), half of those load a name first
+            if nproc % 2 == 1:
+                e["VT_CLOSE_STDIN"] = "1"
+                nclosed += 1
+                if nproc % 4 == 3:
+                    e["VT_NO_LOCAL"] = "1"
             r = subprocess.run([exe, nf, "--drop-privileges"], env=e, stdout=subprocess.PIPE, stderr=subprocess.PIPE, text=True, timeout=300)
             nproc += 1
             if r.returncode != 0:
@@ -195,8 +204,12 @@ def run(pid, tier, seed):
             for x in e.get("fs", []):
                 x["bytes"] = "(%d bytes)" % len(x["bytes"])
             samples.append(e)
+    NCLOSED = nclosed
     V.log("[%s] %d environments, %d rows, %d rejected" % (pid, nproc, len(lines), len(verdict.violations) + len(verdict.known)))
     return verdict.finish(_ev(pid, tier, seed, t0, states, trans, len(lines), samples, nproc))
+
+
+NCLOSED = 0
 
 
 def _ev(pid, tier, seed, t0, states, trans, rows, samples, nproc):
@@ -206,7 +219,7 @@ def _ev(pid, tier, seed, t0, states, trans, rows, samples, nproc):
                          "rule": "rows = (environment, name) pairs: TZDIR {unset, empty, fixture, nonexistent} x 38 names (relative, absolute, file:-"
                                  "prefixed, ':'-prefixed, empty, directory, unreadable, truncated, garbage, leap-second slim/fat, bad footer, v1, "
                                  "fixed-offset, UTC) and TZ x LOCALTIME combinations for local_time_zone(), one process per environment; every row distinct",
-                         "samples": samples or ["(none)"], "exhaustive": True, "environments": nproc},
+                         "samples": samples or ["(none)"], "exhaustive": True, "environments": nproc, "processes_with_descriptor_0_closed": NCLOSED},
             "assumptions": ["TLC; modules Names, Fixed, TZif, Zone; the harness records the state of candidate paths (a superset) - the spec chooses",
                             "Android/Fuchsia fallback locations are verified absent in this sandbox",
                             "'libc:' names (internal test interface) are not covered"],
